@@ -481,6 +481,8 @@ fn curves() -> Vec<Curve> {
         curve!("P3Gamma", encoding::P3Gamma, Tf::P3Gamma),
         curve!("ProPhotoRgb", encoding::ProPhotoRgb, Tf::ProPhoto),
         curve!("LinearFn", encoding::linear::LinearFn, Tf::Linear),
+        // not one of the listed standards: held to its own documentation (encoded = V^2.2), inverse and monotone
+        curve!("GammaFn<F2p2>", encoding::gamma::GammaFn<encoding::gamma::F2p2>, Tf::Gamma22),
     ]
 }
 
@@ -834,6 +836,19 @@ fn check_wrappers(ctx: &Ctx, c: &mut Collector) {
     wrap!("DisplayP3", encoding::DisplayP3, encoding::Srgb);
     wrap!("DciP3", encoding::DciP3, encoding::P3Gamma);
     wrap!("ProPhotoRgb", encoding::ProPhotoRgb, encoding::ProPhotoRgb);
+    // standards assembled from parts: Gamma<Space, N>, tuple standards (Space, TransferFn) and (Primaries, WhitePoint, TransferFn)
+    {
+        use palette::encoding::gamma::{F2p2, GammaFn};
+        use palette::white_point::{D50, D65};
+        wrap!("Gamma<Srgb>", encoding::Gamma<encoding::Srgb, F2p2>, GammaFn<F2p2>);
+        wrap64!("Gamma<Srgb>", encoding::Gamma<encoding::Srgb, F2p2>, GammaFn<F2p2>);
+        wrap_luma!("Gamma<D65>", encoding::Gamma<D65, F2p2>, GammaFn<F2p2>);
+        wrap!("(Srgb,RecOetf)", (encoding::Srgb, encoding::RecOetf), encoding::RecOetf);
+        wrap64!("(Rec2020,Srgb)", (encoding::Rec2020, encoding::Srgb), encoding::Srgb);
+        wrap!("(AdobeRgb,D50,ProPhotoRgb)", (encoding::AdobeRgb, D50, encoding::ProPhotoRgb), encoding::ProPhotoRgb);
+        wrap64!("(Srgb,D65,P3Gamma)", (encoding::Srgb, D65, encoding::P3Gamma), encoding::P3Gamma);
+        wrap_luma!("(D50,Srgb)", (D50, encoding::Srgb), encoding::Srgb);
+    }
     // integer forms: Srgb<u8> <-> LinSrgb<f32> uses the table functions, all 256 codes per channel
     for v in 0..=255u8 {
         let s: Srgb<u8> = Srgb::new(v, 255 - v, v / 2);
